@@ -172,6 +172,7 @@ class _FPCore2FPy:
         self.gensym = Gensym(rename_hook=pythonize_id)
         self.default_name = default_name
         self.env = env
+        self.called: set[str] = set()
 
     def _visit_var(self, e: fpc.Var, ctx: _Ctx) -> Expr:
         if e.value not in ctx.env:
@@ -302,6 +303,7 @@ class _FPCore2FPy:
                 return Size(None, arg0, arg1, None)
             case fpc.UnknownOperator():
                 ident = pythonize_id(e.name)
+                self.called.add(ident)
                 exprs = [self._visit(e, ctx) for e in e.children]
                 return Call(_func_symbol(ident), None, exprs, {}, None)
             case _:
@@ -820,7 +822,9 @@ class _FPCore2FPy:
 
         name = self.default_name if f.ident is None else pythonize_id(f.ident)
         env = ForeignEnv.default() if self.env is None else self.env
-        meta = FuncMeta(set(), ctx_val, None, props, env)
+        # called functions are free variables, resolved through the environment
+        free_vars = { NamedId(ident) for ident in self.called if ident in env }
+        meta = FuncMeta(free_vars, ctx_val, None, props, env)
         return FuncDef(name, args, block, meta)
 
     def convert(self) -> FuncDef:
